@@ -13,6 +13,8 @@ type Violation struct {
 	Class string `json:"class"`
 	Key   string `json:"key"`
 	Msg   string `json:"msg"`
+	// AltKeys: further keys reported in the same run (data races: every distinct report of the run)
+	AltKeys []string `json:"alt_keys,omitempty"`
 }
 
 // Result of one simulated run.
